@@ -34,3 +34,25 @@ Theorem C02_nonvacuous :
   /\ validate (G [100]%N false false [Q [97]%N true true; Q [65]%N true true]) = false.
 Proof. vm_compute. repeat split; reflexivity. Qed.
 Print Assumptions C02_nonvacuous.
+
+(* ---- the `flat` setting (Model/Flat.v): sections marked flat are left out of the instance and of every xpath ---- *)
+Require Import PX.Model.Flat PX.Proofs.Flat.
+(* model, instance and body agree under flat: for EVERY tree of flat and non-flat sections (any depth, any mix), the xpath of every
+   element that has a node is, in order, the path of its node in the primary instance *)
+Theorem C02_flat_paths_agree : forall name kids,
+  xpaths [] (FS name false kids) = flat_map (ipaths []) (inst_list (FS name false kids)).
+Proof. exact flat_paths_agree. Qed.
+Print Assumptions C02_flat_paths_agree.
+(* ... and the validation (children as they appear in the instance must have distinct lower-cased names) makes every node's
+   children distinct at every depth of the instance, whatever the key function *)
+Theorem C02_flat_valid_instance_unambiguous : forall key name kids,
+  valid key (FS name false kids) = true -> it_unique key (IN name (flat_map inst_list kids)).
+Proof. exact flat_valid_instance_unambiguous. Qed.
+Print Assumptions C02_flat_valid_instance_unambiguous.
+(* the rule of the unrepaired code (uniqueness among a section's own children) is refuted: defect F35 *)
+Theorem C02_flat_per_section_rule_refuted :
+  valid_per_section (fun s => s) f35_witness = true /\ ~ it_unique (fun s => s) (IN [100%N] (flat_map inst_list f35_kids))
+  /\ valid (fun s => s) f35_witness = false.
+Proof. exact per_section_rule_refuted. Qed.
+Print Assumptions C02_flat_per_section_rule_refuted.
+
